@@ -310,3 +310,33 @@ fn c01_small_ring_sequence() {
 	assert!(w[0] == x);
 	kani::cover!(n == 8 && idx == 5, "largest small ring at a middle phase");
 }
+
+macro_rules! tiny_ring {
+	($name:ident, $n:expr) => {
+		/// concrete capacity, symbolic phase and contents: from_parts represents buf[(idx + j) % n] oldest first
+		/// (cheap even when the implementation normalises / copies the buffer)
+		#[kani::proof]
+		#[kani::unwind(8)]
+		fn $name() {
+			let arr: [u8; $n] = kani::any();
+			let idx: usize = kani::any();
+			kani::assume(idx < $n);
+			let mut w = Window::from_parts(arr.to_vec().into_boxed_slice(), idx as PeriodType);
+			let mut k = 0;
+			while k < $n {
+				let p = idx + ($n - 1 - k);
+				let want = arr[if p >= $n { p - $n } else { p }];
+				assert!(w[k as PeriodType] == want, "tiny ring: w[k] is the k-th newest of the rebuilt window");
+				k += 1;
+			}
+			assert!(*w.oldest() == arr[idx], "tiny ring: oldest is buf[index]");
+			let x: u8 = kani::any();
+			assert!(w.push(x) == arr[idx], "tiny ring: push returns buf[index]");
+			assert!(w[0] == x && w.len() as usize == $n);
+			kani::cover!(idx == $n - 1, "last phase reachable");
+		}
+	};
+}
+tiny_ring!(c01_tiny_ring2, 2);
+tiny_ring!(c01_tiny_ring3, 3);
+tiny_ring!(c01_tiny_ring5, 5);
